@@ -2599,6 +2599,8 @@ impl StorageEngine {
                         crate::verif_hooks::point(crate::verif_hooks::SWEEP_BETWEEN, verif_shard_no - 1);
                         
                         let mut shard_guard = shard.write().unwrap();
+                        #[cfg(feature = "verif-hooks")]
+                        crate::verif_hooks::point(crate::verif_hooks::SWEEP_LOCKED, verif_shard_no - 1);
                         for key in expired_keys {
                             // The index entry may be stale: the key may have been overwritten, persisted,
                             // renamed over or given a later deadline since it was indexed or scanned.
